@@ -202,12 +202,12 @@ def substr(s, off, cnt):
         bs = s.b[co:] if co < s.cap else []
         cc = cval(cnt)
         if cc is not None:
-            bs = bs[:cc]
+            bs = bs[:min(cc, len(bs))]
         return BStr(bs, cnt)
     bs = shift_left(s.b, off)
     cc = cval(cnt)
     if cc is not None:
-        bs = bs[:cc]
+        bs = bs[:min(cc, len(bs))]
     return BStr(bs, cnt)
 
 
@@ -240,6 +240,8 @@ def prefixof(p, s):
 
 def suffixof(p, s):
     m = cval(p.n)
+    if m is not None and m > p.cap:
+        return z3.BoolVal(False)  # length beyond capacity: only arises from wrapped arithmetic in dead branches
     conds = [ule(p.n, s.n)]
     off = s.n - p.n
     tail = shift_left(s.b, off, p.cap if m is None else m)
@@ -338,13 +340,13 @@ def parse_unsigned(s, maxval):
 _fresh = [0]
 
 
-def int_to_str(v, side):
+def int_to_str(v, side, maxval=None):
     """decimal rendering of an unsigned 64-bit value: fresh digits constrained by
     sum(d_i * 10^i) == v (unique), no leading zero; constraints appended to `side`."""
     _fresh[0] += 1
     tag = "itos%d" % _fresh[0]
     WW = 72
-    ND = 20
+    ND = 20 if maxval is None else len(str(maxval))
     ds = [z3.BitVec("%s_d%d" % (tag, i), 8) for i in range(ND)]  # d[0] = least significant
     k = z3.BitVec("%s_k" % tag, W)  # number of digits 1..20
     total = z3.BitVecVal(0, WW)
